@@ -232,7 +232,14 @@ def fe_events(rng, tid, material="j2"):
     coords0 = onp.asarray(mesh.coords)
     pert = onp.array([[rng.uniform(-0.05, 0.05) for _ in range(2)] for _ in range(coords0.shape[0])])
     quad = QuadratureRule.create_quadrature_rule_on_triangle(degree=2)
-    if material == "j2":
+    DT = 0.0
+    if material == "visco":
+        # rate-dependent state update: every helper must be evaluated at the SAME non-zero time step
+        from optimism.material import HyperViscoelastic
+        mat = HyperViscoelastic.create_material_model_functions({'equilibrium bulk modulus': 25.0, 'equilibrium shear modulus': 5.0,
+                                                                  'non equilibrium shear modulus': 8.0, 'relaxation time': 0.7})
+        DT = 0.35
+    elif material == "j2":
         props = {'elastic modulus': 100.0, 'poisson ratio': 0.3, 'yield strength': 3.0,
                  'kinematics': 'small deformations', 'hardening model': 'linear', 'hardening modulus': 5.0}
         mat = J2Plastic.create_material_model_functions(props)
@@ -256,21 +263,21 @@ def fe_events(rng, tid, material="j2"):
     mech = Mechanics.create_mechanics_functions(fs, "plane strain", mat)
     U = np.array([[0.08 * c[0] + 0.03 * c[1] + rng.uniform(-0.004, 0.004), -0.02 * c[0] + 0.09 * c[1] + rng.uniform(-0.004, 0.004)] for c in coords0])
     ivs0 = mech.compute_initial_state()
-    ivs = mech.compute_updated_internal_variables(0.6 * U, ivs0)       # an admissible non-virgin state
+    ivs = mech.compute_updated_internal_variables(0.6 * U, ivs0, DT) if DT else mech.compute_updated_internal_variables(0.6 * U, ivs0)       # an admissible non-virgin state
 
     def upd_coords(Uf, iv, coords):
         mf = Mechanics.create_mechanics_functions(direct_space(coords), "plane strain", mat)
-        return mf.compute_updated_internal_variables(Uf, iv)
+        return mf.compute_updated_internal_variables(Uf, iv, DT) if DT else mf.compute_updated_internal_variables(Uf, iv)
 
     def energy_coords(Uf, iv, coords):
         mf = Mechanics.create_mechanics_functions(direct_space(coords), "plane strain", mat)
-        return mf.compute_strain_energy(Uf, iv)
+        return mf.compute_strain_energy(Uf, iv, DT) if DT else mf.compute_strain_energy(Uf, iv)
 
     inv = MechanicsInverse.create_ivs_update_inverse_functions(fs, "plane strain", mat)
     av = np.array(onp.array([rng.gauss(0, 1) for _ in range(int(onp.prod(ivs.shape)))]).reshape(ivs.shape))
     c0 = np.array(coords0)
     # d ivs_new / d ivs_prev (block diagonal per quadrature point)
-    got = inv.ivs_update_jac_ivs_prev(U, ivs)
+    got = inv.ivs_update_jac_ivs_prev(U, ivs, DT)
     Jfull = jax.jacfwd(lambda iv: upd_coords(U, iv, c0))(ivs)          # (ne,nq,ns, ne,nq,ns)
     ne, nq, ns = ivs.shape
     ref = onp.zeros((ne, nq, ns, ns))
@@ -281,18 +288,19 @@ def fe_events(rng, tid, material="j2"):
             ref[e, q] = Jn[e, q, :, e, q, :]
     tot = float(onp.abs(Jn).sum()); diag = float(onp.abs(ref).sum())
     ev.append(dict(e="Helper", name="ivs_update_jac_ivs_prev", code="EQ" if (close(got, ref) and abs(tot - diag) <= 1e-9 * (1 + tot)) else "NE"))
-    got = inv.ivs_update_jac_disp_vjp(U, ivs, av)
+    got = inv.ivs_update_jac_disp_vjp(U, ivs, av, DT)
     ref = jax.vjp(lambda u: upd_coords(u, ivs, c0), U)[1](av)[0] if False else \
         onp.tensordot(onp.asarray(av), onp.asarray(jax.jacfwd(lambda u: upd_coords(u, ivs, c0))(U)), axes=3)
     ev.append(dict(e="Helper", name="ivs_update_jac_disp_vjp", code="EQ" if close(got, ref) else "NE"))
-    got = inv.ivs_update_jac_coords_vjp(U, ivs, c0, av)
+    got = inv.ivs_update_jac_coords_vjp(U, ivs, c0, av, DT)
     ref = onp.tensordot(onp.asarray(av), onp.asarray(jax.jacfwd(lambda x: upd_coords(U, ivs, x))(c0)), axes=3)
     ev.append(dict(e="Helper", name="ivs_update_jac_coords_vjp", code="EQ" if close(got, ref) else "NE"))
 
     def energy_adjoint(Uf, iv, x):
         # what a user passes to the helper factories: traceable under jit, built on the adjoint function space
         afs = AdjointFunctionSpace.construct_function_space_for_adjoint(x, shapeOnRef, mesh, quad)
-        return Mechanics.create_mechanics_functions(afs, "plane strain", mat).compute_strain_energy(Uf, iv)
+        mfa = Mechanics.create_mechanics_functions(afs, "plane strain", mat)
+        return mfa.compute_strain_energy(Uf, iv, DT) if DT else mfa.compute_strain_energy(Uf, iv)
 
     def efun(Uf, q, iv, x):
         return energy_adjoint(Uf, iv, x)
@@ -360,7 +368,7 @@ def main(tier, replay=None):
                 cases[tid] = dict(mode="chain", present=present, K=K, seed=s, data=dict(DATA))
         tid += 1
         traces.append(update_events(tid)); cases[tid] = dict(mode="update", data=dict(DATA), seed=0)
-        for mat in (("j2",) if tier == "quick" else ("j2", "neohookean", "j2", "neohookean")):
+        for mat in (("j2", "visco") if tier == "quick" else ("j2", "neohookean", "visco", "j2", "neohookean", "visco")):
             s = rng.randrange(1 << 30); tid += 1
             traces.append(fe_events(random.Random(s), tid, mat))
             cases[tid] = dict(mode="fe", material=mat, seed=s, data=dict(DATA))
